@@ -98,7 +98,10 @@ def check_pair(vals, mode):
     exec(_mk_src('m', vals['r_req'], vals['r_pos'], vals['r_va'], vals['r_kw']), ns)
     I = InterfaceClass('I', (Interface,), {'m': fromFunction(ns['m'], name='m')})
     ns2 = {}
-    exec(_mk_src('m', vals['i_req'], vals['i_pos'], vals['i_va'], vals['i_kw'], self_=(mode != 'attr')), ns2)
+    # '-va' modes: a method whose implied self is collected by its *args (def m(*va)): no explicit self parameter
+    self_in_va = mode.endswith('-va')
+    mode = mode.replace('-va', '')
+    exec(_mk_src('m', vals['i_req'], vals['i_pos'], vals['i_va'], vals['i_kw'], self_=(mode != 'attr' and not self_in_va)), ns2)
     impl = ns2['m']
     if mode == 'attr':       # plain function stored on the instance
         K = implementer(I)(type('K', (object,), {}))
@@ -288,7 +291,7 @@ def make_e_pairs(params, part, nparts):
             for m in ('attr', 'method', 'class'):
                 check_pair(vals, m)
             return
-        c_mode = pick(mode, 3)
+        c_mode = pick(mode, 5)
         c_rreq = pick(r_req, MAXR + 1)
         assume((c_mode * (MAXR + 1) + c_rreq) % nparts == part)
         c_ropt = pick(r_opt, MAXO + 1)
@@ -298,7 +301,8 @@ def make_e_pairs(params, part, nparts):
         c_if = pick(i_flags, 4)
         vals = dict(r_req=c_rreq, r_pos=c_rreq + c_ropt, r_va=bool(c_rf & 1), r_kw=bool(c_rf & 2),
                     i_req=c_ireq, i_pos=c_ireq + c_iopt, i_va=bool(c_if & 1), i_kw=bool(c_if & 2))
-        m = ('attr', 'method', 'class')[c_mode]
+        m = ('attr', 'method', 'class', 'method-va', 'class-va')[c_mode]
+        assume(c_mode < 3 or (vals['i_va'] and vals['i_pos'] == 0))
         reached((c_mode, c_rreq, c_ropt, c_rf, c_ireq, c_iopt, c_if), dict(mode=m, **vals))
         native(check_pair, vals, m)
     return h
@@ -421,7 +425,7 @@ HARNESSES = [
             tiers=dict(quick=dict(budget_s=120, parts=9, params=dict(max_req=2, max_opt=2)),
                        thorough=dict(budget_s=900, parts=12, params=dict(max_req=3, max_opt=3))),
             encoded=_ENC,
-            bounds='required<=2(3), optional<=2(3), *args, **kw on both sides (1296 pairs quick) x {function attribute, bound method, verifyClass}',
+            bounds='required<=2(3), optional<=2(3), *args, **kw on both sides (1296 pairs quick) x {function attribute, bound method, verifyClass, and methods whose self is collected by *args}',
             outside='keyword-only/positional-only parameters, builtins, parameter names',
             oracle='inspect.signature(impl).bind on every admitted call shape (arities req..pos, +1/+4 with *args, one foreign keyword with **kw)'),
     Harness('e_errors', make_e_errors, kind='E', impls=('py',),
